@@ -260,6 +260,16 @@ impl Exec {
         }
     }
 
+    /// Makes every live node ready (used when a harness flag that nodes poll for has changed).
+    pub fn wake_all(&self) {
+        let mut ready = self.shared.ready.lock().unwrap();
+        for (id, n) in self.nodes.iter().enumerate() {
+            if n.fut.is_some() {
+                ready.insert(id);
+            }
+        }
+    }
+
     /// Performs one step; false if nothing was ready.
     pub fn step(&mut self) -> bool {
         let id = {
